@@ -14,6 +14,9 @@ CLAIMED = {
  "C02": dict(engine="davtree", design="5 C02",
    technique="TLC-checked action property FailureAtomic on DavTree + trace validation of every failing observation (incl. body faults at every offset) by the TLC judge",
    text="Every recorded event with status >= 400 (or a panic) must leave the snapshot of the served directory unchanged; universe = failing share of the C01 products, the If-Match/If-None-Match table, and PUT bodies failing at every offset (short) / boundary+seeded offsets (70 kB), by I/O error and by context cancellation."),
+ "C04": dict(engine="davtree", design="5 C04",
+   technique="CondOK truth table in the TLA+ DavTree spec judged by TLC on every (tree, conditional request) pair; TLC-simulated histories with announced entity tags threaded through the trace spec; helper/hand-over table judged by CondJudge",
+   text="Exhaustive 6x6 If-Match x If-None-Match classes x {PUT, DELETE} x every path on every tree of the bounded instance (tags are real server announcements: current = announced since last write, stale = announced before a rewrite); histories validate that PUT/GET/HEAD/PROPFIND announce one and the same string for an unmodified resource; ConditionalMatch helpers and byte-for-byte hand-over to WebDAV/CalDAV/CardDAV backends over adversarial tag strings."),
  "C17": dict(engine="davtree", design="5 C17",
    technique="leak bit recorded on every event of the DavTree universes, required FALSE by the TLC judge",
    text="Every response (headers and body) of every (tree, request) pair, body fault and conditional request is scanned for the absolute path of the sandbox (and its symlink-resolved form); the specification's responses carry no such datum, so any occurrence is a reject."),
